@@ -1,6 +1,6 @@
 SPECIFICATION Spec
 CONSTANTS
-  NS = 2
+  NS = 3
   Topics = {"a", "b"}
   UserTypes = {"A"}
   BadTypes = {"X"}
@@ -14,8 +14,8 @@ CONSTANTS
   FreeNodes = FALSE
   Delays <- Delay2
   Offsets <- Off0
-  MaxPub = 3
-  Horizon = 2
+  MaxPub = 4
+  Horizon = 3
   Budgets = {1}
   Kinds = {"sink", "relay", "follower"}
   Acyclic = TRUE
